@@ -415,7 +415,15 @@ pub fn record(seed: u64, n: u64, out: &mut TraceOut) {
   let mut left = n;
   while left > 0 {
     let kind = if r.gen_bool(0.5) { Kind::Core } else { Kind::Iota };
-    let mut obj = build(kind, &[]).unwrap_or_else(|e| tool_error(&e));
+    let mut obj = match guarded(|| build(kind, &[])) {
+      Ok(Ok(o)) => o,
+      Ok(Err(e)) | Err(e) => {
+        // a failure of the code under test is data: the trace specification has no step for it
+        out.event(json!({"op": {"name": "reset"}, "res": {"ok": false, "failure": e}, "len": 0}));
+        left = left.saturating_sub(20);
+        continue;
+      }
+    };
     let id = service_id(kind, &iota_did());
     out.event(json!({"op": {"name": "reset"}, "res": {"ok": true}, "len": 0}));
     let seg = left.min(r.gen_range(40..120));
